@@ -5,6 +5,9 @@ use deserr::errors::json::value_kinds_description_json as real_value_kinds_descr
 /// The function under test, with a panic turned into an output that cannot be a valid phrase (so that it is
 /// reported as a violation with its input instead of taking the harness thread down).
 fn value_kinds_description_json(kinds: &[deserr::ValueKind]) -> String {
+    if kinds.len() <= 12 {
+        monitor::watch::set_context(|| format!("value_kinds_description_json({kinds:?})"));
+    }
     match monitor::run::quiet_catch(|| real_value_kinds_description_json(kinds)) {
         Ok(s) => s,
         Err(m) => format!("<the function panicked: {m}>"),
